@@ -11,7 +11,7 @@ from ..cfg import cfg_of
 from ..index import AnalysisError, function_stmts, parent, walk_no_nested
 from ..pipeline import check_pipelines, no_dropped_result, parser_pipelines
 from ..roles import schema_backend_classes, self_method
-from ..util import (bool_atoms, callee_last, calls_in, canon_atom, enclosing_stmt, kw, names_in, path_condition,
+from ..util import (Expander, same_module_helpers, bool_atoms, callee_last, calls_in, canon_atom, enclosing_stmt, kw, names_in, path_condition,
                     show_condition, txt)
 
 EXPLANATION = (
@@ -30,7 +30,7 @@ EXPLANATION = (
     "itself - pandas semantics on data (NaN in duplicated, dtype equality, regex expansion on real labels)."
 )
 LEVEL_RULE = "one obligation per pipeline / (attribute, function) / (check, option row) / write site"
-FLOORS = {"R1": 12, "R2": 25, "R3": 20, "R4": 5, "R5": 2, "R6": 10, "R7": 6, "R8": 12, "R9": 3, "R10": 1, "R11": 3}
+FLOORS = {"R1": 12, "R2": 25, "R3": 20, "R4": 5, "R5": 2, "R6": 10, "R7": 6, "R8": 12, "R9": 3, "R10": 1, "R11": 3, "R12": 6}
 
 PD = "pandera/backends/pandas/builtin_checks.py"
 CONT = "pandera/backends/pandas/container.py::DataFrameSchemaBackend"
@@ -161,7 +161,8 @@ def r4_duplicates(ctx):
                f"evaluates to {got!r}, pandas keep= must be {want!r}")
     for cq, mname in ((ARR, "check_unique"), (CONT, "check_column_values_are_unique")):
         f = ix.cls(cq).method(mname)
-        dups = [c for c in calls_in(f.node) if callee_last(c) == "duplicated"]
+        fam = same_module_helpers(ix, f)
+        dups = [(g, c) for g in fam for c in calls_in(g.node) if callee_last(c) == "duplicated"]
         if not dups:
             ctx.ob("R4", f, "duplicated() call", False, "uniqueness is not computed with duplicated()")
             continue
@@ -169,10 +170,20 @@ def r4_duplicates(ctx):
         for s in function_stmts(f):
             if isinstance(s, ast.Assign) and len(s.targets) == 1 and isinstance(s.targets[0], ast.Name):
                 defs.setdefault(s.targets[0].id, []).append(s.value)
-        for c in dups:
+        for g, c in dups:
             k = kw(c, "keep")
             ok = False
             detail = "duplicated() called without keep=: pandas default keep='first' ignores report_duplicates"
+            if k is not None and g is not f and isinstance(k, ast.Name) and k.id in g.params:
+                # keep= is a parameter of the helper: what the check passes for it at the call site
+                pi = [p_ for p_ in g.params if p_ not in ("self", "cls")].index(k.id)
+                vals = []
+                for cc in calls_in(f.node):
+                    if callee_last(cc) == g.name:
+                        v = kw(cc, k.id) or (cc.args[pi] if pi < len(cc.args) else None)
+                        if v is not None:
+                            vals.append(v)
+                k = vals[0] if vals else k
             if k is not None:
                 srcs = defs.get(k.id, []) if isinstance(k, ast.Name) else [k]
                 ok = bool(srcs) and all(isinstance(v, ast.Call) and callee_last(v) == "convert_uniquesettings" and v.args
@@ -419,44 +430,74 @@ def r8_verdict_observers(ctx):
         data = f.positional[1]
         seen = {}
 
-        def report_ctx(n, report_only):
-            p = parent(n)
-            if isinstance(p, ast.Compare) and all(isinstance(o, (ast.Is, ast.IsNot)) for o in p.ops):
-                return True
-            while p is not None and not isinstance(p, ast.stmt):
-                if isinstance(p, ast.keyword) and p.arg in REPORT_KW:
-                    return True
-                if isinstance(p, ast.JoinedStr):
-                    return True
-                p = parent(p)
-            return isinstance(p, ast.Assign) and all(isinstance(t, ast.Name) and t.id in report_only for t in p.targets)
+        def collect(g, dname, depth=0):
+            """observers through which function g reads the object bound to its local / parameter `dname`"""
 
-        # names used for reporting only (greatest fixpoint): every load is in a reporting context
-        report_only = {t.id for st in function_stmts(f) if isinstance(st, ast.Assign) for t in st.targets if isinstance(t, ast.Name)}
-        changed = True
-        while changed:
-            changed = False
-            for n in walk_no_nested(f.node):
-                if isinstance(n, ast.Name) and isinstance(n.ctx, ast.Load) and n.id in report_only and not report_ctx(n, report_only):
-                    report_only.discard(n.id)
-                    changed = True
-        for n in walk_no_nested(f.node):
-            if not (isinstance(n, ast.Name) and n.id == data and isinstance(n.ctx, ast.Load)):
-                continue
-            if report_ctx(n, report_only):
-                continue
-            q = parent(n)
-            if isinstance(q, ast.Attribute):
-                obs = q.attr
-            elif isinstance(q, ast.Subscript) and q.value is n:
-                obs = "[]"
-            elif isinstance(q, ast.Compare):
-                obs = "in" if any(isinstance(o, (ast.In, ast.NotIn)) for o in q.ops) else "cmp"
-            elif isinstance(q, ast.Call):
-                obs = "arg:" + (callee_last(q) or "?")
-            else:
-                obs = type(q).__name__
-            seen.setdefault(obs, n)
+            def report_ctx(n, report_only):
+                p = parent(n)
+                if isinstance(p, ast.Compare) and all(isinstance(o, (ast.Is, ast.IsNot)) for o in p.ops):
+                    return True
+                while p is not None and not isinstance(p, ast.stmt):
+                    if isinstance(p, ast.keyword) and p.arg in REPORT_KW:
+                        return True
+                    if isinstance(p, ast.JoinedStr):
+                        return True
+                    p = parent(p)
+                return isinstance(p, ast.Assign) and all(isinstance(t, ast.Name) and t.id in report_only for t in p.targets)
+
+            # names used for reporting only (greatest fixpoint): every load is in a reporting context
+            report_only = {t.id for st in function_stmts(g) if isinstance(st, ast.Assign) for t in st.targets if isinstance(t, ast.Name)}
+            changed = True
+            while changed:
+                changed = False
+                for n in walk_no_nested(g.node):
+                    if isinstance(n, ast.Name) and isinstance(n.ctx, ast.Load) and n.id in report_only and not report_ctx(n, report_only):
+                        report_only.discard(n.id)
+                        changed = True
+            for n in walk_no_nested(g.node):
+                if not (isinstance(n, ast.Name) and n.id == dname and isinstance(n.ctx, ast.Load)):
+                    continue
+                if report_ctx(n, report_only):
+                    continue
+                q = parent(n)
+                if depth > 0 and isinstance(q, ast.Subscript) and q.value is n:
+                    st_ = enclosing_stmt(n)
+                    if isinstance(st_, ast.Return) or (isinstance(st_, ast.Assign) and all(
+                            isinstance(t, ast.Name) and all(isinstance(enclosing_stmt(u), ast.Return) for u in walk_no_nested(g.node)
+                                                            if isinstance(u, ast.Name) and u.id == t.id and isinstance(u.ctx, ast.Load))
+                            for t in st_.targets)):
+                        continue   # a selection handed back to the caller, judged there under the name it is unpacked into
+                if isinstance(q, ast.Attribute):
+                    obs = q.attr
+                elif isinstance(q, ast.Subscript) and q.value is n:
+                    obs = "[]"
+                elif isinstance(q, ast.Compare):
+                    obs = "in" if any(isinstance(o, (ast.In, ast.NotIn)) for o in q.ops) else "cmp"
+                elif isinstance(q, ast.Call):
+                    # the object handed to a private helper living next to this function: what the helper reads counts
+                    h = None
+                    if depth < 2:
+                        for cand in same_module_helpers(ix, g, depth=1)[1:]:
+                            if callee_last(q) == cand.name:
+                                h = cand
+                    if h is not None:
+                        params = [p_ for p_ in h.params if p_ not in ("self", "cls")]
+                        pos = [i for i, a_ in enumerate(q.args) if a_ is n]
+                        pname = None
+                        if pos and pos[0] < len(params):
+                            pname = params[pos[0]]
+                        for k_ in q.keywords:
+                            if k_.value is n:
+                                pname = k_.arg
+                        if pname is not None:
+                            collect(h, pname, depth + 1)
+                            continue
+                    obs = "arg:" + (callee_last(q) or "?")
+                else:
+                    obs = type(q).__name__
+                seen.setdefault(obs, n)
+
+        collect(f, data)
         for obs, n in sorted(seen.items()):
             ok = obs in allowed
             ctx.ob("R8", f, f"{f.short} reads the data through `{obs}`", ok,
@@ -579,7 +620,49 @@ def r11_verdict_from_output(ctx):
         raise AnalysisError("no CheckResult construction found in the pandas check backend")
 
 
+def r12_verdict_not_from_report(ctx):
+    """The verdict of a core check (CoreCheckResult.passed) never depends on the failure cases built for the report:
+    reshape_failure_cases drops nulls by default and reports may be truncated, so `failure_cases.empty` is not `no
+    violation`."""
+    ix = ctx.ix
+    n = 0
+    for bc in schema_backend_classes(ix, which=("pandas",)):
+        for lst in bc.methods.values():
+            for f in lst:
+                res = [c for c in calls_in(f.node) if callee_last(c) == "CoreCheckResult"]
+                if not res or not f.name.startswith("check_"):
+                    continue
+                cfg = cfg_of(f.node)
+                ex = Expander(f.node)
+                for c in res:
+                    p_ = kw(c, "passed")
+                    sites = []
+                    if isinstance(p_, ast.Name):
+                        sites = [a for a in function_stmts(f) if isinstance(a, ast.Assign) and any(isinstance(t, ast.Name) and t.id == p_.id for t in a.targets)]
+                    elif p_ is not None:
+                        sites = [enclosing_stmt(c)]
+                    for st in sites:
+                        node = cfg.node_of(st)
+                        if node is None:
+                            continue
+                        n += 1
+                        guards = [t for t, _ in cfg.guards(node.id)]
+                        val = st.value if isinstance(st, ast.Assign) else p_
+                        exprs = guards + ([val] if val is not None else [])
+                        bad = [e for e in exprs for d in ex.closure(e)
+                               if any((isinstance(x, ast.Name) and "failure_case" in x.id) or (isinstance(x, ast.Call) and callee_last(x) == "reshape_failure_cases")
+                                      for x in ast.walk(d))]
+                        ctx.ob("R12", f, f"{f.short}: verdict at `{txt(st)[:50]}` does not depend on the failure cases", not bad,
+                               "decided from the data / schema only" if not bad else
+                               f"the verdict is decided under / from `{txt(bad[0])[:70]}`, which derives from the failure cases of the report: "
+                               "reshape_failure_cases drops null rows, so duplicates or violations that consist of nulls leave an empty report and pass",
+                               f.loc(st))
+    if n == 0:
+        raise AnalysisError("no core-check verdict site found")
+
+
 def run(ctx):
+    r12_verdict_not_from_report(ctx)
     r11_verdict_from_output(ctx)
     r10_monotone_verdict(ctx)
     r9_column_info(ctx)
